@@ -17,14 +17,15 @@ for p in ids:
         thorough_cmd="./check %s --tier thorough" % p,
         evidence_file="/verif/evidence/%s.json" % p,
         replay_cmd_template="./check %s --replay {path}" % p,
-        engine=s["engine"],
+        engine=s.get("engine") or "+".join(sorted({p["engine"] for p in s["parts"]})),
         level_claimed=dict(category="proof", text=s["level_text"], design_ref=s.get("design_ref", "")),
         level_note=s["level_note"],
         technique=s["technique"],
     ))
 engines = {}
 for p, s in PROPS.items():
-    engines.setdefault(s["engine"], []).append(p)
+    for e in ([s["engine"]] if s.get("engine") else sorted({q["engine"] for q in s["parts"]})):
+        engines.setdefault(e, []).append(p)
 m = dict(
     version=1,
     setup_cmd="./setup.sh",
